@@ -133,6 +133,11 @@ def gen_query(rng, tier):
         case["kind"] = kind
         case["use_sets"] = rng.random() < .4 and kind == "single"
         case["warm"] = rng.random() < .3
+        # declared latent variables that are neither intervened on, nor queried, nor parents of X: they change nothing about the answer
+        # (the default adjustment over the parents of X stays observable)
+        hidden = [v for v in range(n) if v not in X and v not in Y and v not in par]
+        if hidden and not case["use_sets"] and rng.random() < .35:
+            case["latents"] = rng.sample(hidden, rng.randint(1, min(2, len(hidden))))
         return case
     return None
 
